@@ -11,6 +11,7 @@ package main
 import (
 	"fmt"
 	"math"
+	"reflect"
 	"sort"
 	"strconv"
 	"strings"
@@ -257,6 +258,103 @@ func listsOf(maxLen int, withFloats bool) []listVal {
 			}})
 		}
 	}
+	return res
+}
+
+// ---- untyped lists of numbers of every Go numeric kind (values handed in from Go: struct fields,
+// database rows, ...). Two sub-dimensions, both exhaustive up to maxLen:
+//
+//	mixed: all lists over mixAlpha (one value of each of the 12 kinds, pairwise different values);
+//	one-kind: for each kind other than int / float64 (already covered by any[..] / anyf[..]) all lists
+//	over three values of that kind whose numeric order differs from the order of their printed forms.
+type mixElem struct {
+	kind string
+	v    interface{}
+	f    float64 // numeric value
+	s    string  // printed form
+}
+
+func me(kind string, v interface{}, f float64) mixElem {
+	return mixElem{kind: kind, v: v, f: f, s: fmtFloat(f)}
+}
+
+var mixAlpha = []mixElem{
+	me("int", int(1), 1), me("int8", int8(-3), -3), me("int16", int16(10), 10), me("int32", int32(2), 2), me("int64", int64(-20), -20),
+	me("uint", uint(7), 7), me("uint8", uint8(200), 200), me("uint16", uint16(30), 30), me("uint32", uint32(4), 4), me("uint64", uint64(100), 100),
+	me("float32", float32(2.5), 2.5), me("float64", float64(-1.5), -1.5),
+}
+
+var kindAlphas = [][]mixElem{
+	{me("int8", int8(2), 2), me("int8", int8(10), 10), me("int8", int8(-3), -3)},
+	{me("int16", int16(2), 2), me("int16", int16(10), 10), me("int16", int16(-3), -3)},
+	{me("int32", int32(2), 2), me("int32", int32(10), 10), me("int32", int32(-3), -3)},
+	{me("int64", int64(2), 2), me("int64", int64(10), 10), me("int64", int64(-3), -3)},
+	{me("uint", uint(2), 2), me("uint", uint(10), 10), me("uint", uint(200), 200)},
+	{me("uint8", uint8(2), 2), me("uint8", uint8(10), 10), me("uint8", uint8(200), 200)},
+	{me("uint16", uint16(2), 2), me("uint16", uint16(10), 10), me("uint16", uint16(200), 200)},
+	{me("uint32", uint32(2), 2), me("uint32", uint32(10), 10), me("uint32", uint32(200), 200)},
+	{me("uint64", uint64(2), 2), me("uint64", uint64(10), 10), me("uint64", uint64(200), 200)},
+	{me("float32", float32(2.5), 2.5), me("float32", float32(10), 10), me("float32", float32(-1.5), -1.5)},
+}
+
+func mixLists(maxLen int) []listVal {
+	var res []listVal
+	seen := map[string]bool{}
+	add := func(alpha []mixElem, typ string) {
+		for _, v := range allVectors(len(alpha), maxLen) {
+			v := v
+			el := make([]string, len(v))
+			nu := make([]float64, len(v))
+			ds := make([]string, len(v))
+			for i, x := range v {
+				el[i], nu[i] = alpha[x].s, alpha[x].f
+				ds[i] = alpha[x].kind + ":" + alpha[x].s
+			}
+			name := "mix[" + strings.Join(ds, ",") + "]"
+			if seen[name] {
+				continue
+			}
+			seen[name] = true
+			res = append(res, listVal{name: name, kind: "num", typ: typ, elems: el, nums: nu, mk: func() interface{} {
+				r := make([]interface{}, len(v))
+				for i, x := range v {
+					r[i] = alpha[x].v
+				}
+				return r
+			}})
+		}
+	}
+	add(mixAlpha, "[]interface{}-mixed-kinds")
+	for _, a := range kindAlphas {
+		add(a, "[]interface{}-"+a[0].kind)
+	}
+	// the same single-kind lists as TYPED slices ([]int8, []int32, []uint8, []float32, ...)
+	for _, a := range kindAlphas {
+		a := a
+		for _, v := range allVectors(len(a), maxLen) {
+			v := v
+			el := make([]string, len(v))
+			nu := make([]float64, len(v))
+			ds := make([]string, len(v))
+			for i, x := range v {
+				el[i], nu[i] = a[x].s, a[x].f
+				ds[i] = a[x].s
+			}
+			name := "typed[]" + a[0].kind + "[" + strings.Join(ds, ",") + "]"
+			if seen[name] {
+				continue
+			}
+			seen[name] = true
+			res = append(res, listVal{name: name, kind: "num", typ: "[]" + a[0].kind, elems: el, nums: nu, mk: func() interface{} {
+				r := reflect.MakeSlice(reflect.SliceOf(reflect.TypeOf(a[0].v)), len(v), len(v))
+				for i, x := range v {
+					r.Index(i).Set(reflect.ValueOf(a[x].v))
+				}
+				return r.Interface()
+			}})
+		}
+	}
+	sort.SliceStable(res, func(i, j int) bool { return len(res[i].elems) < len(res[j].elems) })
 	return res
 }
 
@@ -955,6 +1053,37 @@ func lawJoinSplit(t *vlib.T, maxLen int) {
 	}
 }
 
+// join on untyped lists of numbers of every Go kind: an element is joined in the form the print tag
+// gives it, so join = the printed elements with the separator between them, and split with the same
+// (one-character, never part of a printed number) separator restores those printed forms
+func lawJoinNumbers(t *vlib.T, lists []listVal) {
+	for _, sep := range []string{",", ";", " "} {
+		for _, l := range lists {
+			if len(l.elems) == 0 {
+				continue // join|split of the empty list is left open
+			}
+			sep, l := sep, l
+			runCase(t, tc{key: fmt.Sprintf("joinsplit/num/%q/%s", sep, l.name), src: "{% for x in v|join(sep)|split(sep) %}[{{ x }}]{% endfor %}|{{ v|join(sep) }}",
+				ctx: func() map[string]interface{} { return map[string]interface{}{"v": l.mk(), "sep": sep} },
+				eval: func(out string) *vlib.Outcome {
+					o := &vlib.Outcome{Nontrivial: len(l.elems) >= 2, Class: fmt.Sprintf("joinsplit/num/%s/n=%d", l.typ, len(l.elems))}
+					i := strings.Index(out, "|")
+					if i < 0 {
+						return bad(o, "unexpected output shape")
+					}
+					got, joined := out[:i], out[i+1:]
+					if joined != strings.Join(l.elems, sep) {
+						return bad(o, "join(%q) gives %q, want %q", sep, joined, strings.Join(l.elems, sep))
+					}
+					if got != bracket(l.elems) {
+						return bad(o, "join(%q)|split(%q) gives %s, want %s", sep, sep, got, bracket(l.elems))
+					}
+					return o
+				}})
+		}
+	}
+}
+
 // splitAny splits s at every character that occurs in set (the behaviour recorded as KF-C19-3)
 func splitAny(s, set string) []string {
 	var r []string
@@ -1441,7 +1570,7 @@ func main() {
 		ID:    "C19",
 		Level: "exploration",
 		Rule: "one law table per filter, each law on a full grid: all strings of length <= 5 (quick 4) over {a B space é ß 日 newline}; the case laws on every code point (quick: BMP); all lists of length <= 4 (quick 3) " +
-			"over 4 numbers / 4 strings / 4 floats as []interface{}, []int, []string, []float64; all maps with <= 3 entries as map[string]interface{}/int/string, map[int]string; slice(start[, length]) for every start in [-n-2, n+2] " +
+			"over 4 numbers / 4 strings / 4 floats as []interface{}, []int, []string, []float64, plus all []interface{} lists of that length of numbers of every Go numeric kind (12 kinds: mixed over one value per kind, and three values per single kind) under reverse, sort, length/first/last/slice and join|split; all maps with <= 3 entries as map[string]interface{}/int/string, map[int]string; slice(start[, length]) for every start in [-n-2, n+2] " +
 			"and length in {omitted} ∪ [-n-2, n+2] on every string over {a é 日} and on lists ([]interface{}, []string, []int) of n <= 5 (quick 4) items, literal and variable arguments; join|split over 7 separators; default over 40 values x 3 positions; " +
 			"merge over all pairs of lists of length <= 2 and maps of <= 2 entries in all type combinations; abs, round(p, method), number_format(d, point, sep) on every decimal k/1000, |k| <= 3000, p,d in 0..3 " +
 			"(thorough k/10000, |k| <= 30000, 0..4); one fresh engine per case; non-trivial = the filter has something to do (output differs from input, index clamped, digits dropped, keys overlap, ...)",
@@ -1460,14 +1589,18 @@ func main() {
 			}
 			strs := allStrings(strAlpha, ns)
 			lists := listsOf(nl, true)
+			mix := mixLists(nl) // untyped lists of numbers of every Go numeric kind
 			maps3 := mapsOf([]string{"a", "b", "c"}, []int{0, 1, 2}, 3, []string{"any", "int", "string"})
 			lawDefault(t)
 			lawIdempotent(t, strs)
 			lawReverseStrings(t, strs)
 			lawReverseSortLists(t, lists)
+			lawReverseSortLists(t, mix)
 			lawObservers(t, strs, lists, maps3)
+			lawObservers(t, nil, mix, nil)
 			lawKeys(t, maps3)
 			lawJoinSplit(t, 3)
+			lawJoinNumbers(t, mix)
 			lawMerge(t, listsOf(2, false), mapsOf([]string{"a", "b", "c"}, []int{0, 1, 2}, 2, []string{"any", "int"}))
 			lawSliceGrid(t, nsl)
 			if th {
